@@ -86,6 +86,16 @@ func tagFor(l lab) string {
 func structFor(ls []lab) reflect.Type {
 	sf := []reflect.StructField{{Name: "Struct", Type: markerType, Anonymous: true}}
 	for i, l := range ls {
+		if l.Ty <= 9 && l.Name == fmt.Sprintf("k%d", l.Ty) && tyOf(l.Ty).NumMethod() == 0 {
+			// a value named after its own type: declared as an embedded field (an exported embedded type other
+			// than the marker is an ordinary named value, the name being the type's)
+			f := reflect.StructField{Name: tyOf(l.Ty).Name(), Type: tyOf(l.Ty), Anonymous: true}
+			if l.Sub != "" {
+				f.Tag = reflect.StructTag(fmt.Sprintf(`argmapper:",subtype=%s"`, l.Sub))
+			}
+			sf = append(sf, f)
+			continue
+		}
 		sf = append(sf, reflect.StructField{
 			Name: fmt.Sprintf("F%d", i),
 			Type: tyOf(l.Ty),
